@@ -906,6 +906,33 @@ func (in *inliner) stmtsOnce(list []ast.Stmt, within *types.Func) ([]ast.Stmt, b
 			i += used - 1
 			continue
 		}
+		// if !h(args) { FAIL } with a boolean helper that has early `return false`s: the same through a synthetic flag
+		if ifs, isIf := s.(*ast.IfStmt); isIf && ifs.Else == nil && ifs.Init == nil {
+			if u, isU := unparen(ifs.Cond).(*ast.UnaryExpr); isU && u.Op == token.NOT {
+				if call, isC := unparen(u.X).(*ast.CallExpr); isC {
+					if f := callee(in.info, call); f != nil && in.fresh[f.Origin()] && f.Type().(*types.Signature).Results().Len() == 1 {
+						if b, isB := f.Type().(*types.Signature).Results().At(0).Type().Underlying().(*types.Basic); isB && b.Info()&types.IsBoolean != 0 {
+							flag := types.NewVar(call.Pos(), in.p.Types, "ok·", types.Typ[types.Bool])
+							def := &ast.Ident{NamePos: call.Pos(), Name: "ok·"}
+							in.info.Defs[def] = flag
+							use := &ast.Ident{NamePos: call.Pos(), Name: "ok·"}
+							in.info.Uses[use] = flag
+							in.info.Types[use] = types.TypeAndValue{Type: types.Typ[types.Bool]}
+							as := &ast.AssignStmt{Lhs: []ast.Expr{def}, TokPos: call.Pos(), Tok: token.DEFINE, Rhs: []ast.Expr{call}}
+							cond := &ast.UnaryExpr{OpPos: u.OpPos, Op: token.NOT, X: use}
+							in.info.Types[cond] = types.TypeAndValue{Type: types.Typ[types.Bool]}
+							cpIf := *ifs
+							cpIf.Cond = cond
+							if repl, ok := in.guarded(as, &cpIf, within); ok {
+								out = append(out, repl...)
+								changed = true
+								continue
+							}
+						}
+					}
+				}
+			}
+		}
 		if ifs, isIf := s.(*ast.IfStmt); isIf && ifs.Else == nil {
 			if as, isAs := ifs.Init.(*ast.AssignStmt); isAs {
 				if repl, ok := in.guarded(as, ifs, within); ok {
@@ -983,6 +1010,9 @@ func (in *inliner) stmt(s ast.Stmt, within *types.Func) ([]ast.Stmt, bool) {
 			}
 		}
 	case *ast.ReturnStmt:
+		if repl, ok := in.returnThrough(x, within); ok {
+			return repl, true
+		}
 		if len(x.Results) == 1 {
 			if call := singleCall(x.Results[0]); call != nil {
 				if fd, f := in.inlinable(call, within); fd != nil {
@@ -1424,6 +1454,7 @@ func (in *inliner) exprCalls(e ast.Expr, within *types.Func) (ast.Expr, bool) {
 	if !found {
 		return e, false
 	}
+	replaced := false
 	cp := &copier{info: in.info, subst: map[types.Object]ast.Expr{}, onCall: func(c *ast.CallExpr) ast.Expr {
 		fd, f := in.inlinable(c, within)
 		if fd == nil || len(fd.Body.List) != 1 {
@@ -1433,13 +1464,18 @@ func (in *inliner) exprCalls(e ast.Expr, within *types.Func) (ast.Expr, bool) {
 		if !ok || len(res) != 1 {
 			return nil
 		}
+		replaced = true
 		p := &ast.ParenExpr{Lparen: c.Pos(), X: res[0], Rparen: c.End()}
 		if tv, has := in.info.Types[c]; has {
 			in.info.Types[p] = tv
 		}
 		return p
 	}}
-	return cp.node(e).(ast.Expr), true
+	out := cp.node(e).(ast.Expr)
+	if !replaced {
+		return e, false
+	}
+	return out, true
 }
 
 // exprsIn: expression-level expansion in the expressions of a simple statement.
@@ -2390,4 +2426,151 @@ func (in *inliner) pruneConst(body *ast.BlockStmt) *ast.BlockStmt {
 		return s
 	}
 	return pruneBlock(body)
+}
+
+// returnThrough: `return E[h(args)]` where the call of a new single-result helper h is the innermost operation of the returned
+// expression (everything else in E is applied to its result or is a plain operand): h's body is spliced in and each of its
+// `return A` becomes `return E[A]`. (return pb.delegateFor(psc).ShouldSample(p))
+func (in *inliner) returnThrough(rs *ast.ReturnStmt, within *types.Func) ([]ast.Stmt, bool) {
+	if len(rs.Results) != 1 {
+		return nil, false
+	}
+	top := unparen(rs.Results[0])
+	if c, isC := top.(*ast.CallExpr); isC {
+		if fd, _ := in.inlinable(c, within); fd != nil {
+			return nil, false // the whole result is the call: handled by the plain cases
+		}
+	}
+	// candidate calls
+	var target *ast.CallExpr
+	n := 0
+	ast.Inspect(top, func(m ast.Node) bool {
+		switch x := m.(type) {
+		case *ast.FuncLit:
+			return false
+		case *ast.CallExpr:
+			if fd, f := in.inlinable(x, within); fd != nil && f.Type().(*types.Signature).Results().Len() == 1 {
+				target = x
+				n++
+			}
+		}
+		return true
+	})
+	if n != 1 || target == nil {
+		return nil, false
+	}
+	// every other call in E must contain the target (be applied to its result), every other leaf must be a simple operand
+	okShape := true
+	ast.Inspect(top, func(m ast.Node) bool {
+		if m == ast.Node(target) {
+			return false
+		}
+		switch x := m.(type) {
+		case *ast.FuncLit:
+			okShape = false
+			return false
+		case *ast.CallExpr:
+			has := false
+			ast.Inspect(x, func(k ast.Node) bool {
+				if k == ast.Node(target) {
+					has = true
+				}
+				return !has
+			})
+			if !has {
+				okShape = false
+			}
+		}
+		return okShape
+	})
+	if !okShape {
+		return nil, false
+	}
+	fd, f := in.inlinable(target, within)
+	if fd == nil {
+		return nil, false
+	}
+	sig := f.Type().(*types.Signature)
+	// parameters: substitution / binding as in expandMulti
+	var pre []ast.Stmt
+	subst := map[types.Object]ast.Expr{}
+	inClosure := map[types.Object]bool{}
+	ast.Inspect(fd.Body, func(m ast.Node) bool {
+		if lit, isLit := m.(*ast.FuncLit); isLit {
+			ast.Inspect(lit.Body, func(k ast.Node) bool {
+				if id, isID := k.(*ast.Ident); isID {
+					if o := in.info.Uses[id]; o != nil {
+						inClosure[o] = true
+					}
+				}
+				return true
+			})
+			return false
+		}
+		return true
+	})
+	bind := func(p *types.Var, arg ast.Expr) {
+		if p.Name() == "_" || p.Name() == "" {
+			return
+		}
+		if in.simpleArg(arg) && !inClosure[p] && !assignedIn(in.info, fd.Body, p) && in.stableIn(arg, fd.Body) {
+			subst[p] = arg
+			return
+		}
+		id := &ast.Ident{NamePos: target.Pos(), Name: p.Name()}
+		in.info.Defs[id] = p
+		pre = append(pre, &ast.AssignStmt{Lhs: []ast.Expr{id}, TokPos: target.Pos(), Tok: token.DEFINE, Rhs: []ast.Expr{arg}})
+	}
+	if r := sig.Recv(); r != nil {
+		sel := unparen(target.Fun).(*ast.SelectorExpr)
+		recv := ast.Expr(sel.X)
+		if s := in.info.Selections[sel]; s != nil && len(s.Index()) > 1 {
+			recv = in.explicitRecv(sel, s)
+			if recv == nil {
+				return nil, false
+			}
+		}
+		bind(r, recv)
+	}
+	for i, a := range target.Args {
+		bind(sig.Params().At(i), a)
+	}
+	// no deferred calls, no literal-level surprises: the body is spliced as it is
+	hasDefer := false
+	ast.Inspect(fd.Body, func(m ast.Node) bool {
+		if _, isD := m.(*ast.DeferStmt); isD {
+			hasDefer = true
+		}
+		return !hasDefer
+	})
+	if hasDefer {
+		return nil, false
+	}
+	cp := &copier{info: in.info, subst: subst}
+	cp.onReturn = func(r *ast.ReturnStmt) ast.Stmt {
+		if len(r.Results) != 1 {
+			return r
+		}
+		val := cp.node(r.Results[0]).(ast.Expr)
+		outer := &copier{info: in.info, subst: map[types.Object]ast.Expr{}}
+		outer.onCall = func(c *ast.CallExpr) ast.Expr {
+			if c == target {
+				p := &ast.ParenExpr{Lparen: c.Pos(), X: val, Rparen: c.End()}
+				if tv, has := in.info.Types[c]; has {
+					in.info.Types[p] = tv
+				}
+				return p
+			}
+			return nil
+		}
+		nr := *rs
+		nr.Results = []ast.Expr{outer.node(rs.Results[0]).(ast.Expr)}
+		return &nr
+	}
+	out := pre
+	for _, s := range fd.Body.List {
+		out = append(out, cp.node(s).(ast.Stmt))
+	}
+	in.count++
+	return out, true
 }
